@@ -1,4 +1,4 @@
 SPECIFICATION Spec
 CONSTANT FreeOrder = FALSE
-INVARIANTS TypeOK FlowMonotone FlowFixpoint
+INVARIANTS TypeOK FlowFixpoint
 CHECK_DEADLOCK FALSE
